@@ -224,6 +224,41 @@ func runC18Migrate(t *vs.Tape, cfg map[string]string) (res vs.Result) {
 		s.Close()
 		return fail(v)
 	}
+	// re-import into the SAME database: a revised file in which some entries keep
+	// their ID and index fields (hashes, entropy) but change other fields; the
+	// newer version must win field for field
+	if n > 0 && (!large || t.Chance("reimport.large", 1, 3)) {
+		rev := make([]detection.Signature, len(entries))
+		changed := 0
+		for i := range entries {
+			rev[i] = simsig.Clone(entries[i])
+			if t.Chance("reimport.change", 1, 2) || i == 0 {
+				rev[i].Name = "revised " + rev[i].Name
+				rev[i].Severity = "REVISED"
+				rev[i].Metadata.References = append(rev[i].Metadata.References, "rev")
+				changed++
+			}
+		}
+		must(d.WriteFile(simJSONIn, encodeDB(t, rev), 0o644))
+		got2, err := s.MigrateFromJSON(simJSONIn)
+		if err != nil || got2 != n {
+			s.Close()
+			return fail(vs.Violationf("C18/reimport-result", "second MigrateFromJSON into the same database returned (%d, %v), want (%d, nil)", got2, err, n))
+		}
+		want = lastWins(rev)
+		if v := storeEquals(s, want, "after re-importing a revised file"); v != nil {
+			v.Class = "C18/reimport/" + v.Class
+			s.Close()
+			return fail(v)
+		}
+		if v := exportEquals(s, d, want, "re-import->export"); v != nil {
+			s.Close()
+			return fail(v)
+		}
+		c.Inc("reimports")
+		entries = rev
+		data = encodeDB(t, entries)
+	}
 	// second leg: export -> migrate into a second database -> identical set
 	exp, _ := d.ReadFile(simJSONOut)
 	s.Close()
